@@ -292,7 +292,7 @@ def make_jobs(tier, seed):
                 for stop in (False, True):
                     for fast in (False, True):
                         combos.append((lev, side, pattern, stop, fast))
-    reps = 3 if tier == 'quick' else 150
+    reps = 3 if tier == 'quick' else 450
     for rep in range(reps):
         for lev, side, pattern, stop, fast in combos:
             mode = 'isolated'
